@@ -1,6 +1,10 @@
 //! E-MIRI (C38): threads sharing one analysis run read-only queries concurrently under Miri's
 //! seeded scheduler and data-race detector; results must equal the sequential results.
-//! usage: miri-c38 <threads> <variant>
+//! usage: miri-c38 <threads> <variant> [mode]
+//!   mode 0: diagnostics + per-token semantic info of every file (the server's and checker's readers)
+//!   mode 1: index lookups only (module resolution exact / fuzzy / missing, type declarations, super and
+//!           sub types, members, globals, references): cheap, so that many seeds fit a budget, and every
+//!           thread starts with the same cold lookups so that first uses overlap
 use std::sync::Arc;
 
 use emmylua_code_analysis::{EmmyLuaAnalysis, Emmyrc, FileId, RenderLevel, file_path_to_uri, humanize_type};
@@ -14,7 +18,8 @@ fn files(variant: u32) -> Vec<(&'static str, String)> {
     let n = variant;
     vec![
         ("a.lua", format!("---@class Base{n}\n---@field v integer\n\n---Doc\n---@class Cls{n}: Base{n}\n---@field x integer\nlocal Cls{n} = {{}}\nfunction Cls{n}:foo() return self.x end\nGlob{n} = 1\nreturn Cls{n}\n")),
-        ("b.lua", format!("local C = require(\"a\")\n---@type Cls{n}\nlocal i = {{}}\nlocal y = i:foo() + Glob{n} + i.v\nlocal unused = undefinedThing\n---@deprecated\nlocal function old() end\nold()\nreturn y\n")),
+        ("deep/nest/util.lua", format!("local U = {{}}\nfunction U.help() return {n} end\nreturn U\n")),
+        ("b.lua", format!("local C = require(\"a\")\nlocal U = require(\"util\")\nlocal hv = U.help()\n---@type Cls{n}\nlocal i = {{}}\nlocal y = i:foo() + Glob{n} + i.v\nlocal unused = undefinedThing\n---@deprecated\nlocal function old() end\nold()\nreturn y\n")),
         ("c.lua", format!("---@enum Color{n}\nlocal Color{n} = {{ Red = 1, Green = 2 }}\n---@type Color{n}\nlocal c = \"x\"\n---@class Sub{n}: Cls{n}\n---@type Sub{n}\nlocal s = {{}}\nreturn c, s.v, s.x\n")),
     ]
 }
@@ -28,6 +33,11 @@ fn build(variant: u32) -> (EmmyLuaAnalysis, Vec<FileId>) {
     let mut ids = analysis.update_files_by_uri(list);
     ids.sort();
     // an edit after the load, as the server does on didChange (invalidates whatever is cached)
+    let (rel, text) = files(variant).remove(2);
+    analysis.update_file_by_uri(&file_path_to_uri(&root.join(rel)).unwrap(), Some(text));
+    // ... and the last mutation is of a file whose own analysis asks almost nothing of the indexes
+    // (no require, no type lookups): whatever is filled lazily and invalidated by an index mutation
+    // is cold when the readers start, as it is in the server after an edit of an unrelated file
     let (rel, text) = files(variant).remove(1);
     analysis.update_file_by_uri(&file_path_to_uri(&root.join(rel)).unwrap(), Some(text));
     (analysis, ids)
@@ -56,10 +66,94 @@ fn query_file(analysis: &EmmyLuaAnalysis, fid: FileId) -> Vec<String> {
     out
 }
 
+/// Index lookups as handlers do them between semantic queries.
+fn query_lookups(analysis: &EmmyLuaAnalysis, n: u32, rot: usize) -> Vec<String> {
+    use emmylua_code_analysis::{LuaMemberOwner, LuaTypeDeclId};
+    let db = analysis.compilation.get_db();
+    let mut out = Vec::new();
+    let mods = ["util", "a", "nest.util", "no.such.module", "deep.nest.util", "b"];
+    for k in 0..mods.len() {
+        let m = mods[(k + rot) % mods.len()];
+        let r = db.get_module_index().find_module(m).map(|i| i.full_module_name.clone());
+        out.push(format!("module {m} -> {r:?}"));
+    }
+    let names = [format!("Cls{n}"), format!("Base{n}"), format!("Sub{n}"), format!("Color{n}"), "NoSuchType".to_string()];
+    for k in 0..names.len() {
+        let name = &names[(k + rot) % names.len()];
+        let id = LuaTypeDeclId::global(name);
+        let decl = db.get_type_index().get_type_decl(&id);
+        out.push(format!("type {name} -> {}", decl.map(|d| d.get_full_name().to_string()).unwrap_or_default()));
+        let sup: Vec<String> = db.get_type_index().get_super_types(&id).unwrap_or_default().iter().map(|t| humanize_type(db, t, RenderLevel::Simple)).collect();
+        out.push(format!("supers {name} -> {sup:?}"));
+        let mut sub: Vec<String> = db.get_type_index().get_all_sub_types(&id).iter().map(|d| d.get_full_name().to_string()).collect();
+        sub.sort();
+        out.push(format!("subs {name} -> {sub:?}"));
+        let mut ms: Vec<String> = db
+            .get_member_index()
+            .get_members(&LuaMemberOwner::Type(id.clone()))
+            .unwrap_or_default()
+            .iter()
+            .map(|m| m.get_key().to_path())
+            .collect();
+        ms.sort();
+        out.push(format!("members {name} -> {ms:?}"));
+    }
+    let g = format!("Glob{n}");
+    out.push(format!("global {g} -> {:?}", db.get_global_index().get_global_decl_ids(&g).map(|v| v.len())));
+    out.push(format!("grefs {g} -> {:?}", db.get_reference_index().get_global_references(&g).map(|v| v.len())));
+    out.sort();
+    out
+}
+
+fn main_lookups(threads: usize, variant: u32) {
+    let (reference_analysis, _) = build(variant);
+    let reference = query_lookups(&reference_analysis, variant, 0);
+    drop(reference_analysis);
+    // blind-spot guard: the fuzzy lookup must really resolve through the suffix fallback
+    if !reference.iter().any(|l| l.starts_with("module util -> Some")) || std::env::var_os("C38_DUMP").is_some() {
+        for l in &reference {
+            eprintln!("REF {l}");
+        }
+        if !reference.iter().any(|l| l.starts_with("module util -> Some")) {
+            eprintln!("WORKLOAD-BLIND: require(\"util\") does not resolve");
+            std::process::exit(4);
+        }
+    }
+    let (analysis, ids) = build(variant);
+    let analysis = Arc::new(analysis);
+    let mut handles = Vec::new();
+    for t in 0..threads {
+        let a = analysis.clone();
+        // half of the threads start with the same lookup (overlapping first uses), the others rotated
+        handles.push(std::thread::spawn(move || query_lookups(&a, variant, if t % 2 == 0 { 0 } else { t })));
+    }
+    let mut ok = true;
+    for (t, h) in handles.into_iter().enumerate() {
+        let res = h.join().expect("query thread panicked");
+        if res != reference {
+            ok = false;
+            eprintln!("MISMATCH thread {t}: concurrent lookups differ from sequential lookups");
+            for (a, b) in res.iter().zip(reference.iter()) {
+                if a != b {
+                    eprintln!("  concurrent: {a}\n  sequential: {b}");
+                }
+            }
+        }
+    }
+    println!("C38-RUN threads={threads} variant={variant} mode=1 files={} result_lines={} equal={ok}", ids.len(), reference.len());
+    if !ok {
+        std::process::exit(3);
+    }
+}
+
 fn main() {
     let args: Vec<String> = std::env::args().collect();
     let threads: usize = args.get(1).and_then(|s| s.parse().ok()).unwrap_or(3);
     let variant: u32 = args.get(2).and_then(|s| s.parse().ok()).unwrap_or(0);
+    let mode: u32 = args.get(3).and_then(|s| s.parse().ok()).unwrap_or(0);
+    if mode == 1 {
+        return main_lookups(threads, variant);
+    }
     // The sequential reference is computed on a separately built, identical analysis: querying the
     // shared one first would warm any lazily filled cache and hide a race on its cold path.
     let (reference_analysis, ref_ids) = build(variant);
@@ -90,7 +184,7 @@ fn main() {
         }
     }
     let lines: usize = reference.iter().map(|v| v.len()).sum();
-    println!("C38-RUN threads={threads} variant={variant} files={} result_lines={lines} equal={ok}", ids.len());
+    println!("C38-RUN threads={threads} variant={variant} mode=0 files={} result_lines={lines} equal={ok}", ids.len());
     if !ok {
         std::process::exit(3);
     }
